@@ -336,6 +336,16 @@ def handle : R String := do
     | .ok st =>
       let thr := match st.throttle with | some n => n | none => -1
       pure s!"ok {wStr st.path} {wStr st.mode} {wBool st.code} {wBool st.data} {st.data_start} {wBool st.no_debug_ops} {wBool st.obfuscate} {wBool st.stdout} {thr} {wBool st.warn_octal_on} {wBool st.warn_return_on} {st.volume} {wList wPair st.init} {wBool st.color}"
+  | "ifdefp" => do
+    let s ← str
+    pure s!"{wBool (Ifdef.partitions s)} {wStr (Ifdef.evaluateP s)}"
+  | "linecol" => do
+    -- linecol <text> <offset>: position after the first <offset> characters, the quoted line, the caret prefix
+    let s ← str
+    let off ← nat
+    let p := Loc.posAfter (s.take off)
+    let line := (Loc.fileLines s).getD (p.1 - 1) []
+    pure s!"{p.1} {p.2} {wStr line} {wStr (Loc.alignCaret line p.2)}"
   | "wf" => do
     let v ← vm
     pure (wBool (wfb v))
